@@ -1056,19 +1056,19 @@ func (hv *Hash) Get3(key px.Value, dflt px.Producer) px.Value {
 }
 
 func (hv *Hash) Get4(key string) (px.Value, bool) {
-	return hv.get(px.HashKey(key))
+	return hv.get(stringKey(key))
 }
 
 func (hv *Hash) Get5(key string, dflt px.Value) px.Value {
-	return hv.get2(px.HashKey(key), dflt)
+	return hv.get2(stringKey(key), dflt)
 }
 
 func (hv *Hash) Get6(key string, dflt px.Producer) px.Value {
-	return hv.get3(px.HashKey(key), dflt)
+	return hv.get3(stringKey(key), dflt)
 }
 
 func (hv *Hash) GetEntry(key string) (px.MapEntry, bool) {
-	if pos, ok := hv.valueIndex()[px.HashKey(key)]; ok {
+	if pos, ok := hv.valueIndex()[stringKey(key)]; ok {
 		return hv.entries[pos], true
 	}
 	return nil, false
@@ -1110,7 +1110,7 @@ func (hv *Hash) IncludesKey(o px.Value) bool {
 }
 
 func (hv *Hash) IncludesKey2(key string) bool {
-	_, ok := hv.valueIndex()[px.HashKey(key)]
+	_, ok := hv.valueIndex()[stringKey(key)]
 	return ok
 }
 
